@@ -10,11 +10,13 @@ import CpModel.Validators
 
     E <hdr>                             elementsSimple(hdr)  -> texts joined by '/'   ([] when empty)
 
-    Q kind method proto known base callSince etagsOn autotags hEtag autoTag lastmod im inm ims ius range content
+    Q kind method proto known base callSince etagsOn autotags hEtag autoTag lastmod im inm ims ius range content boundary ctype
         kind = file|gen   method = GET|HEAD|…   proto = 10|11   known = 0|1 (entity length known)   base = status   flags = 0|1
         hEtag, lastmod, ims, ius, range = N | text;  autoTag = text
         im, inm = [] | text/text/…
         content = x<hex> | f<len>.<a>.<b>   (byte i = (a*i+b) % 251)
+        boundary = N | text (the boundary the real response chose), ctype = text: when the body is
+        multipart the exact body bytes are rendered and `:m<len>:<adler32>` is appended to body=
         -> s=<status> cr=<N|*/t|a-b/t> cl=<N|n> etag=<N|text> body=<empty|err|b:<len>:<adler32>|p:a-b/t:<len>:<adler32>;…>
 -/
 open CpModel CpModel.Ranges CpModel.Validators
@@ -71,13 +73,15 @@ def showBody : Body → String
 def showResp (x : Resp) : String :=
   s!"s={x.status} cr={showCR x.contentRange} cl={Proto.showOptNat x.contentLength} etag={showOptText x.etag} body={showBody x.body}"
 
-def parseQ : List String → Option Req
+def parseQ : List String → Option (Req × Option Text × Text)
   | [kind, method, proto, known, base, callSince, etagsOn, autotags, hEtag, autoTag, lastmod, im, inm,
-     ims, ius, range, content] => do
+     ims, ius, range, content, boundary, ctype] => do
+    let boundary ← optText? boundary
+    let ctype ← Proto.untext? ctype
     let kind ← if kind == "file" then some Kind.file else if kind == "gen" then some Kind.gen else none
     let proto11 ← if proto == "11" then some true else if proto == "10" then some false else none
     let base ← base.toNat?
-    pure {
+    pure ({
       kind := kind
       getHead := method == "GET" || method == "HEAD"
       isHead := method == "HEAD"
@@ -95,7 +99,7 @@ def parseQ : List String → Option Req
       ims := ← optText? ims
       ius := ← optText? ius
       range := ← optText? range
-      content := ← content? content }
+      content := ← content? content }, boundary, ctype)
   | _ => none
 
 def step (line : String) : String :=
@@ -110,7 +114,14 @@ def step (line : String) : String :=
     | none => "bad-op"
   | "Q" :: rest =>
     match parseQ rest with
-    | some r => showResp (respond r)
+    | some (r, boundary, ctype) =>
+      let x := respond r
+      let extra := match x.body, boundary with
+        | .parts ps, some b =>
+          let m := renderMultipart (ascii b) (ascii ctype) ps
+          s!":m{m.length}:{adler32 m}"
+        | _, _ => ""
+      showResp x ++ extra
     | none => "bad-op"
   | _ => "bad-op"
 
